@@ -88,6 +88,20 @@ CHECKS = {
          'documented. Sampling, not proof.',
     note='Trusted: decoders in tsim/refgram.py (LoPar .gram read as a multiset of surface-order '
          'rules), platform.system stub. Labels/words restricted to what the formats can carry.'),
+ 'C11': dict(
+    ref='DESIGN.md §5 C11',
+    technique='deterministic simulation: histories of calls over terminal files on the simulated '
+              'file system exercising every state of the function-object cache (cold, warm, '
+              'other file, after failed load), stdout as data channel, interleaved sessions; '
+              'refinement against functional edit models',
+    text='Seeded exploration: 1-2 sessions of 1-6 token-editing calls on fresh trees, with '
+         'insert/substitute alternating between differently named terminal files (valid, '
+         'out-of-range, index 0, negative, duplicate index, other sentence ids), interleaved by a '
+         'seeded schedule; every result is compared with a functional model of the edit, the '
+         'returned node must be the root, numbering 1..n, and punctuation_delete\'s stdout lines '
+         'must be exactly the deleted tokens. Sampling, not proof.',
+    note='Trusted: functional edit models in tsim/props/c11.py (insert convention as fixed by the '
+         'test-suite). With the slash parameter only the generic clauses are judged.'),
 }
 
 NOT_BUILT_YET = {}
